@@ -482,3 +482,11 @@ Example C03_unmatched_shapes_nonvacuous :
   fst (step w (OSetData 0 3 (Some (dd 5%Z)) None (Some true))) = Err EUnique /\      (* the clone below b would sit next to x *)
   fst (step w (OSetData 0 5 (Some (dd 9%Z)) (Some (DInt 3)) None)) = Err EUnique.    (* new data and an explicit id *)
 Proof. vm_compute. repeat split. Qed.
+
+(* Audit C03 (low): the invariant also over histories that contain Tree.load ([run_x], Mut/MachineLoad.v) *)
+Theorem C03_reachable_load : forall ops t, In t (trees (run_x ops empty_world)) -> sib_unique (forest_of t).
+Proof.
+  intros ops t Ht. assert (X := WFw_run_x ops empty_world WFw_empty). destruct X as [X _ _ _]. rewrite Forall_forall in X.
+  apply SU_sib_unique. apply wf_su. now apply X.
+Qed.
+Print Assumptions C03_reachable_load.
